@@ -279,6 +279,9 @@ def check_rank_tables(ck):
 
 def gen_numpy(ck):
     rng = ck.rng
+    if rng.random() < 0.2:
+        gd, w = graphs.full_word_def(rng)
+        return {"gd": gd.to_json(), "cfg": {"bit_encoding_width": rng.choice(["auto", w]) if max(gd.central) == 2**w - 1 else w, "random_seed": 1}}
     for _ in range(300):
         n = rng.randint(3, 12)
         k = rng.randint(1, 3)
